@@ -230,6 +230,11 @@ def run(ctx):
         # ---- j  nothing on the read path keeps data in static storage (one object per process: another context's bytes)
         from . import c19 as _c19
         _c19.shared_scratch(ck, prog, config, 'C02-j', ('zck_read', 'zck_read_header', 'zck_close'), 'read path')
+        # ---- k  unzck stores every byte it was given: the output offset moves only by writing
+        from ..rules import extra as _x2k
+        _x2k.check_no_forward_seek(ck, prog, config, 'C02-k', (), 'unzck', tool_unit='src/unzck.c')
+        from ..rules import fielddom as _fd2
+        _fd2.check_bitfields(ck, prog, config, 'C02-l')
         # ---- d
         pairing(ck, prog, 'comp_read', ('read_data', 1, None),
                 [('hash_update', 2, 3, 'check_chunk_hash'), ('hash_update', 2, 3, 'check_full_hash'),
